@@ -10,6 +10,7 @@ class Prop:
     rule = ""
     exhaustive = False
     kernel_sample = 48
+    shard_min = 50
 
     def cases(self, rng, tier):
         return []
@@ -69,6 +70,7 @@ def judge(prop, cases):
 
 def run_check(prop, tier, seed, replay=None):
     t0 = time.time()
+    SHARD_MIN[0] = prop.shard_min
     rng = random.Random(seed * 1000003 + sum(map(ord, prop.id)))
     proof = proof_step(prop.id)
     try:
